@@ -356,5 +356,62 @@ def ext_std(interp, st, i, args):
     return [(st, None)]
 
 
+class StdStringModel:
+    """std::string objects reachable through reference parameters: s.data() points to an exactly-sized block
+    of s.size() bytes (interior NULs allowed, the terminator is not part of the extent); size()/length()
+    return that length.  append(ptr, n) reads n bytes at ptr."""
+
+    def __init__(self, mod):
+        from irlib import demangle
+        names = [f.name for f in mod.functions.values() if 'basic_string' in f.name]
+        self.ext = {}
+        for n, d in zip(names, demangle(names)):
+            if not d.startswith('std::__cxx11::basic_string<char'):
+                continue
+            tail = d.split('>::', 1)[1] if '>::' in d else ''
+            if tail in ('data() const', 'c_str() const', 'data()'):
+                self.ext[n] = self.data
+            elif tail in ('size() const', 'length() const'):
+                self.ext[n] = self.size
+            elif tail.startswith('append(char const*, unsigned long)'):
+                self.ext[n] = self.append_n
+        self.found = set(self.ext.values())
+
+    def model(self, st, this):
+        if not isinstance(this, PtrVal) or this.is_null or not this.off.is_const():
+            return None
+        key = ('stdstring', this.obj, this.off.c)
+        m = st.conv.get(key)
+        if m is None:
+            n = st.fresh_int(64, False, 'strsize')
+            st.cons.add_le(n.u, BIG)
+            o = st.new_obj('param', n.u, 'strdata', {'desc': 'characters of std::string %s' % str(this.obj).split('#')[0]})
+            m = (o.id, n.u)
+            st.conv[key] = m
+        return m
+
+    def data(self, interp, st, i, args):
+        m = self.model(st, args[0])
+        if m is None:
+            return [(st, interp.unknown_ptr(st, 'strdata', True))]
+        return [(st, PtrVal(m[0], Lin(0)))]
+
+    def size(self, interp, st, i, args):
+        m = self.model(st, args[0])
+        if m is None:
+            return [(st, st.fresh_int(64, False, 'strsize'))]
+        return [(st, IntVal(64, m[1], None))]
+
+    def append_n(self, interp, st, i, args):
+        n = _u(st, args[2])
+        if not (n.is_const() and n.c == 0):
+            interp.check_access(st, args[1], n, i, 'append-src')
+        if st.bottom:
+            return []
+        if isinstance(args[0], PtrVal) and args[0].obj is not None:
+            interp.havoc_obj(st, args[0].obj)
+        return [(st, args[0])]
+
+
 LIBC_EXT = {'memchr': ext_memchr, 'memcmp': ext_memcmp, 'strchr': ext_strchr, 'strcmp': ext_strcmp,
             'strlen': ext_strlen19, 'igris_memmem': ext_igris_memmem}
